@@ -111,7 +111,7 @@ class C08(Prop):
               'DK.C08.cost_scalar_eq_mat', 'DK.C08.cost_vec_eq_mat', 'DK.C08.deriv_scalar_eq_mat',
               'DK.C08.deriv_vec_eq_mat', 'DK.C08.shiftRows_scalar', 'DK.C08.shiftRows_vec',
               'DK.C08.tree_cost_scalar', 'DK.C08.tree_cost_vec', 'DK.C08.tree_deriv_scalar']
-  rule = ('leaves of every shipped class (n 1..8 quick, ..31 thorough; zero-width slots; scalar/vector parameters), random trees '
+  rule = ('leaves of every shipped class (n 1..8 quick plus 5 % from {12,16,24,25,31,48}; ..60 thorough; 25 % of prices, interior flows and cost parameters are non-dyadic decimals; zero-width slots; scalar/vector parameters), random trees '
           '(depth <= 3, children with different row counts, MF / two-ratio adaptors as children) and bare MF adaptors x in-bounds flow x '
           'price of any sign in every accepted shape (scalar, per-slot vector, full matrix; every equivalent shape of the drawn price is '
           'exercised). integer-typed integer-valued flows with fractional prices (20% of leaves are base Device/PVDevice of that kind); price updated in place between calls. non-trivial: some non-zero price entry and some non-zero flow entry (trees: >= 2 rows)')
